@@ -72,7 +72,8 @@ def appended(lib, x):
 def is_dup_wrapper(w, key, prev, dup):
     return (cls_is(w, 'DuplicateBlockKeyBlock') and fresh(w) and as_ref(w, 'ref:DuplicateBlockKeyBlock')._key == key
             and same(as_ref(w, 'ref:DuplicateBlockKeyBlock')._previous_block, prev)
-            and same(as_ref(w, 'ref:DuplicateBlockKeyBlock')._ignore_error_block, dup))
+            and same(as_ref(w, 'ref:DuplicateBlockKeyBlock')._ignore_error_block, dup)
+            and same(w._raw, dup._raw) and same(w._start_line_in_file, dup._start_line_in_file))
 
 
 @contract(L + "_cast_to_duplicate")
@@ -118,7 +119,7 @@ ADD_LOOPS = {
         "invariant": {
             "range": "0 <= _i <= len(blks) and not same(blks, self._blocks) and not same(_added_blocks, self._blocks) and not same(_added_blocks, blks)",
             "blocks-grow": "same(self._blocks, old(self._blocks)) and len(self._blocks) == old(len(self._blocks)) + _i and forall(i, 0 <= i < old(len(self._blocks)), same(self._blocks[i], old(self._blocks[i])))",
-            "added": "fresh(_added_blocks) and len(_added_blocks) == _i and forall(t, 0 <= t < _i, same(_added_blocks[t], self._blocks[old(len(self._blocks)) + t]) and (same(_added_blocks[t], blks[t]) or (cls_is(_added_blocks[t], 'DuplicateBlockKeyBlock') and fresh(_added_blocks[t]) and same(as_ref(_added_blocks[t], 'ref:DuplicateBlockKeyBlock')._ignore_error_block, blks[t]))))",
+            "added": "fresh(_added_blocks) and len(_added_blocks) == _i and forall(t, 0 <= t < _i, same(_added_blocks[t], self._blocks[old(len(self._blocks)) + t]) and (same(_added_blocks[t], blks[t]) or (cls_is(_added_blocks[t], 'DuplicateBlockKeyBlock') and fresh(_added_blocks[t]) and same(as_ref(_added_blocks[t], 'ref:DuplicateBlockKeyBlock')._ignore_error_block, blks[t]))) and same(_added_blocks[t]._raw, blks[t]._raw) and same(_added_blocks[t]._start_line_in_file, blks[t]._start_line_in_file))",
             "wf-held": "held_indexed(self)", "wf-typed": "index_typed(self)", "wf-once": "keyed_once(self)",
             "index-monotone": "forall(k, 'str', old(k in self._entries_by_key), k in self._entries_by_key and same(self._entries_by_key[k], old(self._entries_by_key[k]))) and forall(k, 'str', old(k in self._strings_by_key), k in self._strings_by_key and same(self._strings_by_key[k], old(self._strings_by_key[k])))",
             "arg-unchanged": "ARG_UNCHANGED",
@@ -303,6 +304,7 @@ class _:
     ensures = {
         "C08.add-position": "same(self._blocks, old(self._blocks)) and len(self._blocks) == old(len(self._blocks)) + 1 and forall(i, 0 <= i < old(len(self._blocks)), same(self._blocks[i], old(self._blocks[i])))",
         "C08.add-element": "same(self._blocks[old(len(self._blocks))], blocks) or (cls_is(self._blocks[old(len(self._blocks))], 'DuplicateBlockKeyBlock') and fresh(self._blocks[old(len(self._blocks))]) and same(as_ref(self._blocks[old(len(self._blocks))], 'ref:DuplicateBlockKeyBlock')._ignore_error_block, blocks))",
+        "C03+C09.added-raw": "same(self._blocks[old(len(self._blocks))]._raw, blocks._raw) and same(self._blocks[old(len(self._blocks))]._start_line_in_file, blocks._start_line_in_file)",
         "C08.wf-held": "held_indexed(self)", "C08.wf-typed": "index_typed(self)", "C08.wf-once": "keyed_once(self)",
     }
     raises = {}
